@@ -240,7 +240,9 @@ class SGen:
     def uninit_piece(self):
         r = self.r
         self.add(r.choice(["PRINT U;U$", "PRINT LEN(U$)+1", "K2=U9+1:PRINT K2", "IF U8=0 THEN PRINT \"ZERO\"",
-                           "U$=U$+\"A\":PRINT U$", "FOR I=1 TO U7+2:PRINT I:NEXT I", "PRINT MID$(U$+\"ABC\",U6+1,2)"]))
+                           "U$=U$+\"A\":PRINT U$", "FOR I=1 TO U7+2:PRINT I:NEXT I", "PRINT MID$(U$+\"ABC\",U6+1,2)",
+                           "PRINT UU$;U2$;\"|\"", "W2$=UV$+\"A\":PRINT W2$;LEN(UV$)", "PRINT LEN(U3$+UW$)", "PRINT UX;U4;UX+1",
+                           "IF UY$=\"\" THEN PRINT \"EMPTY\"", "PRINT LEFT$(UZ$+\"AB\",1);ASC(U5$+\"A\")"]))
 
     def program(self):
         r = self.r
@@ -281,6 +283,8 @@ PROBES = [
     '10 INPUT A(2):PRINT A(2)',
     '10 A$="HELLO":PRINT LEFT$(A$,2);RIGHT$(A$,2);MID$(A$,2,2);LEN(A$);ASC(A$);CHR$(66);VAL("12");STR$(5);INSTR(1,A$,"L");STRING$(3,"*")',
     '10 PRINT U;U$;LEN(V$);ABS(W)',
+    '10 PRINT AB$;N1$;"|";XY;Z9',
+    '10 NM$=NM$+"A":PRINT NM$;LEN(Q2$)',
     '10 FOR I=0 TO 3:Y(I)=I*2:NEXT I:PRINT Y(0);Y(1);Y(2);Y(3)',
 ]
 
